@@ -1,5 +1,5 @@
 """Property id -> rules, and the texts that go to MANIFEST / evidence."""
-from .rules import optab, sign, role, memo, state, reord, handles
+from .rules import optab, sign, role, memo, state, reord, handles, raw
 
 PROPS = dict()
 NOT_BUILT = dict()
@@ -126,6 +126,7 @@ prop('C07', [
     state.r_pair,
     state.r_invmap,
     state.r_writers,
+    raw.r_raw,
 ],
     'swap: old children released and new children acquired for every '
     'rewritten node, candidates handed to the rooted collection, '
@@ -193,6 +194,7 @@ prop('C12', [
     sign.r_sign,
     role.r_role,
     memo.r_memo,
+    raw.r_temporaries,
 ],
     'sign and roles across pickle/JSON writers and readers.',
     'file-system behaviour, shelve.',
@@ -211,6 +213,7 @@ prop('C14', [
     state.r_invmap,
     state.r_writers,
     memo.r_inval,
+    raw.r_raw,
 ],
     'vars/_level_to_var written as inverse entries and the terminal moved '
     'below each new variable on every path of add_var; undeclare_vars '
@@ -244,6 +247,27 @@ prop('C16', [
     'find_or_add as HIGH/LOW; only the THEN edge is required regular.',
     'header mode semantics.',
     'format-table role dataflow; identifier-domain taint')
+prop('C17', [
+    raw.r_raw,
+    raw.r_guards,
+    raw.r_temporaries,
+    reord.r_context,
+    handles.r_parser,
+],
+    'on every path of every function of dd.bdd, dd.autoref and dd._copy '
+    'that writes manager state, no user-facing rejection (explicit raise '
+    'of a non-assertion error, or a call to one of the repository\'s '
+    'validators) follows the first write, except for reviewed exemptions; '
+    'the argument checks named in the anchors are present and precede '
+    'the first use; dd.autoref checks every operand against its manager; '
+    'the reordering context restores its flag first thing on every exit; '
+    'loader temporaries are released on normal and exceptional exits; '
+    'the parser never holds Function objects.',
+    'failures injected inside library code (pickle, json, ply); '
+    'exceptions raised implicitly (KeyError) inside callees that are not '
+    'validators.',
+    'validation-before-mutation ordering on enumerated paths; guard '
+    'presence; release-in-finally')
 prop('C18', [
     sign.r_sign,
     role.r_role,
